@@ -65,7 +65,10 @@ def main(argv):
         print(("ok   " if ok else "FAIL "), name, pid, "detected" if det else ("quiet" if det is False else "ERROR"), info[:110])
     print(f"{len(results) - bad}/{len(results)} as expected")
     if "--write" in argv:
-        json.dump(out, open(os.path.join(VERIF, "seeded", "RECHECK.json"), "w"), indent=1, sort_keys=True)
+        path = os.path.join(VERIF, "seeded", "RECHECK.json")
+        prev = json.load(open(path)) if os.path.exists(path) else {}
+        prev.update(out)
+        json.dump(prev, open(path, "w"), indent=1, sort_keys=True)
     return 1 if bad else 0
 
 
